@@ -20,8 +20,8 @@ struct M4 { LD a[4][4]; };
 static M4 ident() { M4 m; for (int i = 0; i < 4; ++i) for (int j = 0; j < 4; ++j) m.a[i][j] = i == j; return m; }
 static M4 mul(M4 const& A, M4 const& B) { M4 r; for (int c = 0; c < 4; ++c) for (int k = 0; k < 4; ++k) { LD s = 0; for (int j = 0; j < 4; ++j) s += A.a[j][k] * B.a[c][j]; r.a[c][k] = s; } return r; }
 template<class T> static M4 toL(glm::mat<4, 4, T> const& m) { M4 r; for (int c = 0; c < 4; ++c) for (int k = 0; k < 4; ++k) r.a[c][k] = m[c][k]; return r; }
-template<class T> static LD diff(glm::mat<4, 4, T> const& g, M4 const& r) { LD d = 0; for (int c = 0; c < 4; ++c) for (int k = 0; k < 4; ++k) d = std::max(d, fabsl((LD)g[c][k] - r.a[c][k])); return d; }
-static LD nrm(M4 const& m) { LD s = 0; for (int c = 0; c < 4; ++c) for (int k = 0; k < 4; ++k) s = std::max(s, fabsl(m.a[c][k])); return s; }
+template<class T> static LD diff(glm::mat<4, 4, T> const& g, M4 const& r) { LD d = 0; for (int c = 0; c < 4; ++c) for (int k = 0; k < 4; ++k) d = nmax(d, fabsl((LD)g[c][k] - r.a[c][k])); return d; }
+static LD nrm(M4 const& m) { LD s = 0; for (int c = 0; c < 4; ++c) for (int k = 0; k < 4; ++k) s = nmax(s, fabsl(m.a[c][k])); return s; }
 static M4 rodr(LD a, LD x, LD y, LD z) { LD n = sqrtl(x * x + y * y + z * z); x /= n; y /= n; z /= n; LD c = cosl(a), s = sinl(a), t = 1 - c; M4 m = ident();
 	m.a[0][0] = c + t * x * x; m.a[0][1] = t * x * y + s * z; m.a[0][2] = t * x * z - s * y; m.a[1][0] = t * x * y - s * z; m.a[1][1] = c + t * y * y; m.a[1][2] = t * y * z + s * x; m.a[2][0] = t * x * z + s * y; m.a[2][1] = t * y * z - s * x; m.a[2][2] = c + t * z * z; return m; }
 template<class T> static std::string ms(glm::mat<4, 4, T> const& m) { std::string s = "["; for (int c = 0; c < 4; ++c) { s += "("; for (int r = 0; r < 4; ++r) { s += str((double)m[c][r]); if (r < 3) s += ","; } s += ")"; } return s + "]"; }
@@ -63,7 +63,7 @@ template<class T> static void run(Rng& g, int n) {
 		  glm::vec<3, T> dS, dT, dK; glm::qua<T> dQ; glm::vec<4, T> dP; count("decompose" + ty); bool okd = glm::decompose(Mx, dS, dQ, dT, dK, dP);
 		  if (!okd) fail("decompose" + ty, "returned-false", ms(Mx), "true", "false");
 		  else { M4 K2 = ident(); K2.a[1][0] = dK.z; K2.a[2][0] = dK.y; K2.a[2][1] = dK.x; M4 S2 = ident(); S2.a[0][0] = dS.x; S2.a[1][1] = dS.y; S2.a[2][2] = dS.z; M4 R2 = toL(glm::mat4_cast(dQ)); M4 T2 = ident(); T2.a[3][0] = dT.x; T2.a[3][1] = dT.y; T2.a[3][2] = dT.z;
-		    M4 C2 = mul(mul(mul(T2, R2), K2), S2); LD d = 0; for (int c = 0; c < 4; ++c) for (int r = 0; r < 4; ++r) d = std::max(d, fabsl(C2.a[c][r] - (LD)Mx[c][r])); LD td = 4096 * eps * (1 + nrm(C));
+		    M4 C2 = mul(mul(mul(T2, R2), K2), S2); LD d = 0; for (int c = 0; c < 4; ++c) for (int r = 0; r < 4; ++r) d = nmax(d, fabsl(C2.a[c][r] - (LD)Mx[c][r])); LD td = 4096 * eps * (1 + nrm(C));
 		    if (!(d <= td)) fail("decompose" + ty, (kyz != 0 ? "skew-yz" : kxy != 0 || kxz != 0 ? "skew" : "trs"), "T*R*K*S scale=(" + str((double)sc.x) + "," + str((double)sc.y) + "," + str((double)sc.z) + ") skew(xy,xz,yz)=(" + str((double)kxy) + "," + str((double)kxz) + "," + str((double)kyz) + ")", "components rebuild the matrix", "max abs diff " + str((double)d) + " skew out=(" + str((double)dK.x) + "," + str((double)dK.y) + "," + str((double)dK.z) + ")"); }
 		}
 		// decompose with a perspective partition: M = P*T*R*S, bottom row (px, py, pz, 1) with any subset of the three entries zero
@@ -72,8 +72,8 @@ template<class T> static void run(Rng& g, int n) {
 		  M4 C = mul(mul(mul(P, Tm), R), S); glm::mat<4, 4, T> Mx; for (int c = 0; c < 4; ++c) for (int r = 0; r < 4; ++r) Mx[c][r] = (T)C.a[c][r];
 		  glm::vec<3, T> dS, dT, dK; glm::qua<T> dQ; glm::vec<4, T> dP; count("decompose_perspective" + ty); bool okd = glm::decompose(Mx, dS, dQ, dT, dK, dP);
 		  if (okd) { M4 K2 = ident(); K2.a[1][0] = dK.z; K2.a[2][0] = dK.y; K2.a[2][1] = dK.x; M4 S2 = ident(); S2.a[0][0] = dS.x; S2.a[1][1] = dS.y; S2.a[2][2] = dS.z; M4 R2 = toL(glm::mat4_cast(dQ)); M4 T2 = ident(); T2.a[3][0] = dT.x; T2.a[3][1] = dT.y; T2.a[3][2] = dT.z;
-		    M4 P2 = ident(); P2.a[0][3] = dP.x; P2.a[1][3] = dP.y; P2.a[2][3] = dP.z; P2.a[3][3] = dP.w; M4 C2 = mul(mul(mul(mul(P2, T2), R2), K2), S2); LD wn = C.a[3][3]; LD d = 0; for (int c = 0; c < 4; ++c) for (int r = 0; r < 4; ++r) d = std::max(d, fabsl(C2.a[c][r] - C.a[c][r] / wn));
-		    LD d2 = 0; if constexpr (std::is_same<T, float>::value) { auto Rm = glm::recompose(dS, dQ, dT, dK, dP); for (int c = 0; c < 4; ++c) for (int r = 0; r < 4; ++r) d2 = std::max(d2, fabsl((LD)Rm[c][r] - C.a[c][r] / wn)); }   /* recompose only instantiates for float */
+		    M4 P2 = ident(); P2.a[0][3] = dP.x; P2.a[1][3] = dP.y; P2.a[2][3] = dP.z; P2.a[3][3] = dP.w; M4 C2 = mul(mul(mul(mul(P2, T2), R2), K2), S2); LD wn = C.a[3][3]; LD d = 0; for (int c = 0; c < 4; ++c) for (int r = 0; r < 4; ++r) d = nmax(d, fabsl(C2.a[c][r] - C.a[c][r] / wn));
+		    LD d2 = 0; if constexpr (std::is_same<T, float>::value) { auto Rm = glm::recompose(dS, dQ, dT, dK, dP); for (int c = 0; c < 4; ++c) for (int r = 0; r < 4; ++r) d2 = nmax(d2, fabsl((LD)Rm[c][r] - C.a[c][r] / wn)); }   /* recompose only instantiates for float */
 		    LD td = 16384 * eps * (1 + nrm(C)); if (!(d <= td) || !(d2 <= td)) fail("decompose_perspective" + ty, "bottom row mask " + str(mask), "P*T*R*S p=(" + str((double)pp[0]) + "," + str((double)pp[1]) + "," + str((double)pp[2]) + ")", "components (and recompose) rebuild the matrix normalised by m[3][3]", "max abs diff " + str((double)d) + " / recompose " + str((double)d2) + " perspective out=(" + str((double)dP.x) + "," + str((double)dP.y) + "," + str((double)dP.z) + "," + str((double)dP.w) + ")"); }
 		  else fail("decompose_perspective" + ty, "returned-false", "mask " + str(mask), "true", "false"); }
 		// gtx/matrix_interpolation: axisAngle recovers the rotation of a rigid matrix, axisAngleMatrix rebuilds it, extractMatrixRotation drops the translation, interpolate hits both ends and the half-way rotation
@@ -82,7 +82,7 @@ template<class T> static void run(Rng& g, int n) {
 		  count("matrix_interpolation" + ty); glm::vec<3, T> ax; T an; glm::axisAngle(A, ax, an); LD sgn = ((LD)ax.x * n1.x + (LD)ax.y * n1.y + (LD)ax.z * n1.z) < 0 ? -1 : 1; LD tq = 2048 * eps / std::max((LD)0.05, sinl(a1));
 		  if (!(fabsl(sgn * an - a1) <= tq && fabsl(sgn * ax.x - n1.x) <= tq && fabsl(sgn * ax.y - n1.y) <= tq && fabsl(sgn * ax.z - n1.z) <= tq)) fail("axisAngle" + ty, "value", "angle " + str((double)a1) + " axis (" + str((double)n1.x) + "," + str((double)n1.y) + "," + str((double)n1.z) + ")", "the axis and angle of the rotation", "angle " + str((double)an) + " axis (" + str((double)ax.x) + "," + str((double)ax.y) + "," + str((double)ax.z) + ")");
 		  auto RM = glm::axisAngleMatrix(n1, (T)a1), XR = glm::extractMatrixRotation(A), I0 = glm::interpolate(A, B, (T)0), I1 = glm::interpolate(A, B, (T)1); LD d1 = 0, d2 = 0, d3 = 0, d4 = 0;
-		  for (int c = 0; c < 4; ++c) for (int r = 0; r < 4; ++r) { LD want = (c < 3 && r < 3) ? RA.a[c][r] : (c == r ? 1 : 0); d1 = std::max(d1, fabsl((LD)RM[c][r] - want)); d2 = std::max(d2, fabsl((LD)XR[c][r] - want)); d3 = std::max(d3, fabsl((LD)I0[c][r] - (LD)A[c][r])); d4 = std::max(d4, fabsl((LD)I1[c][r] - (LD)B[c][r])); }
+		  for (int c = 0; c < 4; ++c) for (int r = 0; r < 4; ++r) { LD want = (c < 3 && r < 3) ? RA.a[c][r] : (c == r ? 1 : 0); d1 = nmax(d1, fabsl((LD)RM[c][r] - want)); d2 = nmax(d2, fabsl((LD)XR[c][r] - want)); d3 = nmax(d3, fabsl((LD)I0[c][r] - (LD)A[c][r])); d4 = nmax(d4, fabsl((LD)I1[c][r] - (LD)B[c][r])); }
 		  if (!(d1 <= 64 * eps)) fail("axisAngleMatrix" + ty, "value", "angle " + str((double)a1), "Rodrigues matrix", "max abs diff " + str((double)d1)); if (!(d2 <= 64 * eps)) fail("extractMatrixRotation" + ty, "value", ms(A), "rotation block, no translation", "max abs diff " + str((double)d2));
 		  LD trr = 0; for (int c = 0; c < 3; ++c) for (int r = 0; r < 3; ++r) trr += RA.a[c][r] * RB.a[c][r]; LD cr = (trr - 1) / 2, sr = sqrtl(std::max((LD)0, 1 - cr * cr));   // relative rotation A -> B: its axis is ill-conditioned next to 0 and pi
 		  if (sr > 0.05L) if (!(d3 <= 4096 * eps) || !(d4 <= 4096 * eps * 4 / sr)) fail("interpolate" + ty, "end points", ms(A), "interpolate(A, B, 0) = A and interpolate(A, B, 1) = B", "max abs diff " + str((double)d3) + " / " + str((double)d4)); }
